@@ -51,7 +51,13 @@ func (r Targets) Less(i, j int) bool {
 	if ti, tj := typeName(r[i].Type), typeName(r[j].Type); ti != tj {
 		return ti < tj
 	}
-	return r[i].Name < r[j].Name
+	if r[i].Name != r[j].Name {
+		return r[i].Name < r[j].Name
+	}
+	if c := compareRangePtrs(r[i].DefRangePtr, r[j].DefRangePtr); c != 0 {
+		return c < 0
+	}
+	return r[i].Description.Value < r[j].Description.Value
 }
 
 func typeName(typ cty.Type) string {
